@@ -19,7 +19,10 @@ RULE = ("every registered intermediate (enumerated from the running registry;"
         "library's own Wick/RSPT pipeline (MP amplitudes, RE residuals, "
         "ground-state density blocks via remove_tensor), (ii) fully vs once "
         "expanded form, (iii) every declared permutational symmetry, with "
-        "default and with permuted / renamed index tuples; all decided by the"
+        "default and with permuted / renamed index tuples, (iv) expansion "
+        "with every letter of the index alphabets as requested target name "
+        "(7 cyclic shifts of the name tuple) against the default-name "
+        "expansion with renamed targets; all decided by the"
         " Coq fraction validator.  Non-trivial: the definition has >= 2 "
         "terms or contracted indices; distinct by (intermediate, relation)")
 TRUSTED = ["the derived quantities come from the library's derivation "
@@ -207,6 +210,81 @@ def run(ctx):
                 "a declared permutational symmetry of an intermediate is not "
                 "proved for its definition",
                 {"relation": p.label, "difference": p.diff, "error": p.err},
+                p.diff is not None)
+
+    # ---- (iv) requested index names that coincide with names used inside
+    #      the definitions (index capture) ---------------------------------
+    letters = {"occ": "ijklmno", "virt": "abcdefgh"}
+    cpairs = []
+    for name, cls in itmds.items():
+        default = get_symbols("".join(cls.default_idx))
+        if any(s.space not in letters or s.spin for s in default):
+            continue
+        for fully in (False, True):
+            if fully and (cls.itmd_type == "re_residual" or
+                          (quick and cls.order > 2)):
+                continue
+            try:
+                ref = real(cls.expand_itmd(fully_expand=fully))
+            except Exception as ex:
+                ctx.note(f"{name}: expansion failed: {ex!r}")
+                continue
+            if quick and len(ref) > 40:
+                continue
+            for r in range(1, 8):
+                names, cnt = [], {"occ": 0, "virt": 0}
+                for s_ in default:
+                    L = letters[s_.space]
+                    names.append(L[(cnt[s_.space] + r) % len(L)])
+                    cnt[s_.space] += 1
+                names = "".join(names)
+                try:
+                    got = real(cls.expand_itmd(indices=names,
+                                               fully_expand=fully))
+                except Exception as ex:
+                    ctx.violation(f"C12:expand-exception:{name}:{names}",
+                                  f"expand_itmd raised {ex!r}",
+                                  {"intermediate": name, "indices": names},
+                                  False)
+                    continue
+                ictx = adcio.IdxCtx()
+                try:
+                    p_got = adcio.conv_expr(got, ictx)
+                    p_ref = adcio.conv_expr(ref, ictx)
+                except adcio.Unsupported as ex:
+                    ctx.obligation(f"capture:{name}: fragment", False,
+                                   str(ex))
+                    break
+                tg_def = [ictx.conv(x) for x in default]
+                tg_new = [ictx.conv(x) for x in get_symbols(names)]
+                renamed = []
+                for t in p_ref:
+                    m = {x: adcio.PyIdx(x.space, x.spin, x.letter,
+                                        x.num + 700, x.uid)
+                         for x in adcio.term_contracted(t, set(tg_def))}
+                    m.update(dict(zip(tg_def, tg_new)))
+                    renamed.append(adcio.rename_term(t, m))
+                pr = EQ.Pair(None, None, [],
+                             f"capture:{name}:{'full' if fully else 'once'}"
+                             f":{names}", frac="e",
+                             special={"e": numeric.orb_energy_special})
+                pr.p1, pr.p2, pr.tg = p_got, renamed, tg_new
+                cpairs.append(pr)
+                ctx.case(key=pr.label, nontrivial=len(p_got) > 1 or any(
+                    adcio.term_contracted(t, set(tg_new)) for t in p_got),
+                    kind="capture")
+    EQ.run_pairs(ctx, "capt", cpairs, shard=12, header=HEADER)
+    for p in cpairs:
+        if not ctx.obligation(p.label, bool(p.ok), p.err):
+            ctx.violation(
+                f"C12:{p.label}",
+                "the definition expanded with these index names is not "
+                "proved equal to the default-name expansion with the target "
+                "indices renamed (a name used inside the definition captures "
+                "a requested index)",
+                {"relation": p.label, "difference": p.diff, "error": p.err,
+                 "lhs": [repr(t)[:300] for t in p.p1[:6]],
+                 "rhs": [repr(t)[:300] for t in p.p2[:6]]},
                 p.diff is not None)
 
 
